@@ -63,7 +63,7 @@ func (w *WideQ) SQL(plant int, wrapFn string) string {
 	for i, m := range ms {
 		sb.WriteString(w.Tpl[pos:m.Start])
 		if i == plant {
-			if strings.Contains(wrapFn, "%s") {
+			if strings.Contains(wrapFn, "%s") || strings.Contains(wrapFn, "%.0s") {
 				sb.WriteString(fmt.Sprintf(wrapFn, m.Expr))
 			} else {
 				sb.WriteString(wrapFn + "(" + m.Expr + ")")
